@@ -1983,9 +1983,7 @@ package pongo2
 //@   at filepath.IsAbs requires {C11} @the-written-name-decides arg0 == name
 //@   ensures {C11} @a-rooted-name-is-taken-as-written lastresult("filepath.IsAbs") ==> r0 == name
 //@   at filepath.Dir requires {C11} @directory-of-the-referring-template arg0 == base && base != "" && fs.baseDir == ""
-//@   at filepath.Join#0 requires {C11} @relative-to-the-working-directory-when-nothing-else-is-known fs.baseDir == "" && base == "" && len(arg0) == 2 && arg0[0] == lastresult("os.Getwd") && arg0[1] == name
-//@   at filepath.Join#1 requires {C11} @relative-to-the-referring-template len(arg0) == 2 && arg0[0] == lastresult("filepath.Dir") && arg0[1] == name
-//@   at filepath.Join#2 requires {C11} @the-base-directory-has-priority fs.baseDir != "" && len(arg0) == 2 && arg0[0] == fs.baseDir && arg0[1] == name
+//@   at filepath.Join requires {C11} @joined-to-the-base-directory-else-to-the-referring-templates-directory-else-to-the-working-directory len(arg0) == 2 && arg0[1] == name && ((fs.baseDir != "" && arg0[0] == fs.baseDir) || (fs.baseDir == "" && base != "" && arg0[0] == lastresult("filepath.Dir")) || (fs.baseDir == "" && base == "" && arg0[0] == lastresult("os.Getwd")))
 //@   ensures {C11} @any-other-name-is-joined !lastresult("filepath.IsAbs") ==> r0 == lastresult("filepath.Join")
 //@ func (*FSLoader).Abs
 //@   at filepath.Dir requires {C11} @directory-of-the-referring-template arg0 == base
